@@ -41,19 +41,30 @@ NulledPositions(resp) == {NullPrefix(resp.data, resp.errors[k], 0) : k \in 1..Le
 \* ---- variables -------------------------------------------------------------
 \* CoerceVariableValues: -> [ok, vals: [name -> value]] ; values are Null or [t |-> "i"/"b", v]
 Provided(vars, n) == n \in DOMAIN vars
-VarValueOK(ty, v) ==   \* the generator only uses Int and Boolean variables (possibly non-null)
-  IF v = Null THEN ~IsNN(ty)
-  ELSE LET nm == NamedOf(ty) IN (nm = "Int" /\ v.t = "i") \/ (nm = "Boolean" /\ v.t = "b")
+\* input coercion of a provided variable value / of a default literal (constants only): -> [ok, v]
+\* Int, Boolean and lists of them; a single value at a list type is wrapped into a list of one item
+RECURSIVE VarCoerce(_, _)
+VarCoerce(ty, v) ==
+  IF v = Null THEN [ok |-> ~IsNN(ty), v |-> Null]
+  ELSE IF IsNN(ty) THEN VarCoerce(ty[2], v)
+  ELSE IF IsL(ty) THEN
+       (IF v.t = "l"
+        THEN LET rs == [k \in 1..Len(v.v) |-> VarCoerce(ty[2], v.v[k])] IN
+             [ok |-> \A k \in 1..Len(rs) : rs[k].ok, v |-> [t |-> "l", v |-> [k \in 1..Len(rs) |-> rs[k].v]]]
+        ELSE LET r == VarCoerce(ty[2], v) IN [ok |-> r.ok, v |-> [t |-> "l", v |-> <<r.v>>]])
+  ELSE LET nm == NamedOf(ty) IN [ok |-> (nm = "Int" /\ v.t = "i") \/ (nm = "Boolean" /\ v.t = "b"), v |-> v]
+VarValueOK(ty, v) == VarCoerce(ty, v).ok
 RECURSIVE CoerceVars(_, _, _)
 CoerceVars(defs, vars, acc) ==
   IF defs = <<>> THEN [ok |-> TRUE, vals |-> acc]
   ELSE LET d == Head(defs) IN
        IF Provided(vars, d.name)
-       THEN IF VarValueOK(d.type, vars[d.name])
-            THEN CoerceVars(Tail(defs), vars, [n \in DOMAIN acc \cup {d.name} |-> IF n = d.name THEN vars[d.name] ELSE acc[n]])
+       THEN LET r == VarCoerce(d.type, vars[d.name]) IN
+            IF r.ok
+            THEN CoerceVars(Tail(defs), vars, [n \in DOMAIN acc \cup {d.name} |-> IF n = d.name THEN r.v ELSE acc[n]])
             ELSE [ok |-> FALSE, vals |-> acc]
        ELSE IF d.hasDefault
-            THEN CoerceVars(Tail(defs), vars, [n \in DOMAIN acc \cup {d.name} |-> IF n = d.name THEN d.default ELSE acc[n]])
+            THEN CoerceVars(Tail(defs), vars, [n \in DOMAIN acc \cup {d.name} |-> IF n = d.name THEN VarCoerce(d.type, d.default).v ELSE acc[n]])
        ELSE IF IsNN(d.type) THEN [ok |-> FALSE, vals |-> acc]
        ELSE CoerceVars(Tail(defs), vars, acc)            \* no entry: the variable is absent
 
